@@ -14,13 +14,15 @@ def PalNode (g : G D) (u : Nat) : Prop :=
 /-- node-level invariant of the graphs the crate builds: nodes have at least `K` bases; a terminal k-mer identifies its
     node and side (unstranded: up to reverse complement, a single-k-mer node being the only node whose two ends coincide);
     recorded extensions are reciprocal (a palindromic single-k-mer node records them as seen from either strand) -/
-structure GInv (g : G D) : Prop where
+structure SeqInv (g : G D) : Prop where
   kpos : 1 ≤ g.K
   len : ∀ (i : Nat) (n : Node D), g.nodes[i]? = some n → g.K ≤ n.seq.length
   sameSide : ∀ (i j : Nat) (ni nj : Node D) (s : Dir), g.nodes[i]? = some ni → g.nodes[j]? = some nj →
     termKmer g.K ni.seq s = termKmer g.K nj.seq s → i = j
   rcSide : ∀ (i j : Nat) (ni nj : Node D) (s : Dir), g.stranded = false → g.nodes[i]? = some ni → g.nodes[j]? = some nj →
     termKmer g.K ni.seq s.flip = rc (termKmer g.K nj.seq s) → i = j ∧ ni.seq.length = g.K
+
+structure GInv (g : G D) : Prop extends SeqInv g where
   recipr : ∀ (u v : Nat) (nu nv : Node D) (d s : Dir) (b : Base) (f : Bool), g.nodes[u]? = some nu → g.nodes[v]? = some nv →
     has nu.exts d b → findLink g (extend (termKmer g.K nu.seq d) b d) d = some (v, s, f) →
     has nv.exts s (recip (termKmer g.K nu.seq d) d f) ∨
@@ -38,7 +40,7 @@ theorem mem_base4 (b : Base) : b ∈ base4 := by
 
 theorem mem_dirs (d : Dir) : d ∈ [Dir.L, Dir.R] := by cases d <;> simp
 
-theorem searchKmer_unique (g : G D) (hg : GInv g) (u : Nat) (nu : Node D) (hu : g.nodes[u]? = some nu) (s : Dir) :
+theorem searchKmer_unique (g : G D) (hg : SeqInv g) (u : Nat) (nu : Node D) (hu : g.nodes[u]? = some nu) (s : Dir) :
     searchKmer g (termKmer g.K nu.seq s) s = some u := by
   unfold searchKmer
   rw [List.findIdx?_eq_some_iff_getElem]
@@ -51,7 +53,7 @@ theorem searchKmer_unique (g : G D) (hg : GInv g) (u : Nat) (nu : Node D) (hu : 
   have := hg.sameSide j u g.nodes[j] nu s (List.getElem?_eq_getElem hjl) hu (by simpa using hcontra)
   omega
 
-theorem termKmer_ne_nil (g : G D) (hg : GInv g) (u : Nat) (nu : Node D) (hu : g.nodes[u]? = some nu) (s : Dir) :
+theorem termKmer_ne_nil (g : G D) (hg : SeqInv g) (u : Nat) (nu : Node D) (hu : g.nodes[u]? = some nu) (s : Dir) :
     termKmer g.K nu.seq s ≠ [] := by
   have h1 := hg.len u nu hu
   have h2 := hg.kpos
@@ -62,7 +64,7 @@ theorem termKmer_ne_nil (g : G D) (hg : GInv g) (u : Nat) (nu : Node D) (hu : g.
   | R => rw [show termKmer g.K nu.seq .R = nu.seq.drop (nu.seq.length - g.K) from rfl, List.length_drop, List.length_nil] at this; omega
 
 /-- looking up the end k-mer of `u` from the facing side finds `u`, unflipped -/
-theorem lookup_direct (g : G D) (hg : GInv g) (u : Nat) (nu : Node D) (hu : g.nodes[u]? = some nu) (d : Dir) :
+theorem lookup_direct (g : G D) (hg : SeqInv g) (u : Nat) (nu : Node D) (hu : g.nodes[u]? = some nu) (d : Dir) :
     findLink g (termKmer g.K nu.seq d) d.flip = some (u, d, false) := by
   have hsk := searchKmer_unique g hg u nu hu d
   unfold findLink
@@ -72,9 +74,9 @@ theorem lookup_direct (g : G D) (hg : GInv g) (u : Nat) (nu : Node D) (hu : g.no
 
 /-- looking up the reverse complement of the end k-mer of `u` from the same side finds `u` flipped — or, when `u` is a
     single-k-mer node whose k-mer is its own reverse complement, `u` through its other side -/
-theorem lookup_flipped (g : G D) (hg : GInv g) (hst : g.stranded = false) (u : Nat) (nu : Node D) (hu : g.nodes[u]? = some nu) (d : Dir) :
+theorem lookup_flipped (g : G D) (hg : SeqInv g) (hst : g.stranded = false) (u : Nat) (nu : Node D) (hu : g.nodes[u]? = some nu) (d : Dir) :
     findLink g (rc (termKmer g.K nu.seq d)) d = some (u, d, true) ∨
-      (nu.seq.length = g.K ∧ findLink g (rc (termKmer g.K nu.seq d)) d = some (u, d.flip, false)) := by
+      (nu.seq.length = g.K ∧ rc nu.seq = nu.seq ∧ findLink g (rc (termKmer g.K nu.seq d)) d = some (u, d.flip, false)) := by
   by_cases hfirst : (searchKmer g (rc (termKmer g.K nu.seq d)) d.flip).isSome
   · obtain ⟨w, hw⟩ := Option.isSome_iff_exists.mp hfirst
     obtain ⟨nw, hnw, htw⟩ := searchKmer_sound g _ _ _ hw
@@ -82,7 +84,13 @@ theorem lookup_flipped (g : G D) (hg : GInv g) (hst : g.stranded = false) (u : N
     subst hwu
     rw [hu] at hnw; cases hnw
     right
-    refine ⟨hlen, ?_⟩
+    have hx : ∀ side, termKmer g.K nu.seq side = nu.seq := by
+      intro side
+      cases side with
+      | L => show nu.seq.take g.K = nu.seq; rw [← hlen, List.take_length]
+      | R => show nu.seq.drop (nu.seq.length - g.K) = nu.seq; rw [hlen, Nat.sub_self, List.drop_zero]
+    have hrcw : rc nu.seq = nu.seq := by rw [hx, hx] at htw; exact htw.symm
+    refine ⟨hlen, hrcw, ?_⟩
     unfold findLink
     cases d with
     | L => simp only [Dir.flip] at hw ⊢; rw [hw]
@@ -140,7 +148,7 @@ theorem edges_symmetric (g : G D) (hg : GInv g) (u : Nat) (d : Dir) (es : List (
       · rw [if_neg hh] at hb; cases hb
   obtain ⟨nu, b, hu, hb, hl⟩ := hunpack
   obtain ⟨nv, hv, hterm, hf0, hf1⟩ := findLink_sound g _ _ _ _ _ hl
-  have hne := termKmer_ne_nil g hg u nu hu d
+  have hne := termKmer_ne_nil g hg.toSeqInv u nu hu d
   -- abbreviations: the end k-mer of `u`, the k-mer it extends to
   generalize ht : termKmer g.K nu.seq d = t at *
   rcases hg.recipr u v nu nv d s b f hu hv hb (by rw [ht]; exact hl) with hrec | ⟨hpal, hrec⟩
@@ -153,14 +161,14 @@ theorem edges_symmetric (g : G D) (hg : GInv g) (u : Nat) (d : Dir) (es : List (
       simp only [Bool.false_eq_true, if_false] at hterm
       have hk : extend (termKmer g.K nv.seq d.flip) (recip t d false) d.flip = t := by rw [hterm, Compress.extend_back _ b d hne]
       obtain ⟨es', he', hm'⟩ := mem_findEdges g v nv hv d.flip _ hrec (u, d, false)
-        (by rw [hk, ← ht]; exact lookup_direct g hg u nu hu d)
+        (by rw [hk, ← ht]; exact lookup_direct g hg.toSeqInv u nu hu d)
       exact ⟨d.flip, es', d, false, he', hm', Or.inl rfl, Or.inl rfl⟩
     | true =>
       obtain ⟨hs, hst⟩ := hf1 rfl
       subst hs
       simp only [if_true] at hterm
       have hk : extend (termKmer g.K nv.seq s) (recip t s true) s = rc t := by rw [hterm, Compress.extend_back_flip _ b s hne]
-      rcases lookup_flipped g hg hst u nu hu s with h1 | ⟨hlen, h1⟩
+      rcases lookup_flipped g hg.toSeqInv hst u nu hu s with h1 | ⟨hlen, _, h1⟩
       · obtain ⟨es', he', hm'⟩ := mem_findEdges g v nv hv s _ hrec (u, s, true) (by rw [hk, ← ht]; exact h1)
         exact ⟨s, es', s, true, he', hm', Or.inl rfl, Or.inl rfl⟩
       · obtain ⟨es', he', hm'⟩ := mem_findEdges g v nv hv s _ hrec (u, s.flip, false) (by rw [hk, ← ht]; exact h1)
@@ -192,7 +200,7 @@ theorem edges_symmetric (g : G D) (hg : GInv g) (u : Nat) (d : Dir) (es : List (
       have hk : extend (termKmer g.K nv.seq d.flip.flip) (Compress.comp (recip t d false)) d.flip.flip = rc t := by
         rw [hx, Dir.flip_flip, ← hkm.2]
         exact Compress.extend_back_flip t b d hne
-      rcases lookup_flipped g hg hst u nu hu d with h1 | ⟨hlen, h1⟩
+      rcases lookup_flipped g hg.toSeqInv hst u nu hu d with h1 | ⟨hlen, _, h1⟩
       · obtain ⟨es', he', hm'⟩ := mem_findEdges g v nv hv d.flip.flip _ hrec (u, d, true)
           (by rw [hk, Dir.flip_flip, ← ht]; exact h1)
         exact ⟨d.flip.flip, es', d, true, he', hm', Or.inr hpalv, Or.inl rfl⟩
@@ -209,7 +217,7 @@ theorem edges_symmetric (g : G D) (hg : GInv g) (u : Nat) (d : Dir) (es : List (
         rw [hx, hcc, ← hkm.1]
         exact Compress.extend_back t b s hne
       obtain ⟨es', he', hm'⟩ := mem_findEdges g v nv hv s.flip _ hrec (u, s, false)
-        (by rw [hk, ← ht]; exact lookup_direct g hg u nu hu s)
+        (by rw [hk, ← ht]; exact lookup_direct g hg.toSeqInv u nu hu s)
       exact ⟨s.flip, es', s, false, he', hm', Or.inr hpalv, Or.inl rfl⟩
 
 end Graph
@@ -263,7 +271,7 @@ theorem ginvOK_sound (g : G D) (h : ginvOK g = true) : GInv g := by
   unfold ginvOK at h
   simp only [Bool.and_eq_true, decide_eq_true_eq, List.all_eq_true] at h
   obtain ⟨⟨⟨hk, hlen⟩, hends⟩, hrec⟩ := h
-  refine ⟨hk, ?_, ?_, ?_, ?_⟩
+  refine ⟨⟨hk, ?_, ?_, ?_⟩, ?_⟩
   · intro i n hi
     exact hlen n (List.mem_of_getElem? hi)
   · intro i j ni nj s hi hj ht
@@ -292,5 +300,80 @@ theorem ginvOK_sound (g : G D) (h : ginvOK g = true) : GInv g := by
       rcases h1 with h2 | ⟨h2, h3⟩
       · exact Or.inl ((hasExt_iff _ _ _).mp h2)
       · exact Or.inr ⟨palNodeB_sound g v h2, (hasExt_iff _ _ _).mp h3⟩
+
+end Graph
+
+namespace Graph
+open Compress (Seq Base Exts rc extend Node recip)
+open Walk (Dir)
+open Filter (has hasExt_iff)
+variable {D : Type}
+
+/-- **the reciprocal base leads back**: if extending the end of `u` on side `d` by `b` resolves to `(v, s, f)`, then
+    extending the end of `v` on side `s` by the reciprocal base resolves to `u`; and if `v` is a palindromic single-k-mer
+    node, so does extending its other side by the complemented reciprocal base -/
+theorem back_link (g : G D) (hg : SeqInv g) (u v : Nat) (nu nv : Node D) (d s : Dir) (b : Base) (f : Bool)
+    (hu : g.nodes[u]? = some nu) (hv : g.nodes[v]? = some nv)
+    (hl : findLink g (extend (termKmer g.K nu.seq d) b d) d = some (v, s, f)) :
+    (∃ d' f', findLink g (extend (termKmer g.K nv.seq s) (recip (termKmer g.K nu.seq d) d f) s) s = some (u, d', f') ∧
+      (d' = d ∨ (g.stranded = false ∧ nu.seq.length = g.K ∧ rc nu.seq = nu.seq))) ∧
+    (PalNode g v → ∃ d' f', findLink g (extend (termKmer g.K nv.seq s.flip)
+        (Compress.comp (recip (termKmer g.K nu.seq d) d f)) s.flip) s.flip = some (u, d', f')) := by
+  obtain ⟨nv', hv', hterm, hf0, hf1⟩ := findLink_sound g _ _ _ _ _ hl
+  rw [hv] at hv'; cases hv'
+  have hne := termKmer_ne_nil g hg u nu hu d
+  generalize ht : termKmer g.K nu.seq d = t at *
+  constructor
+  · cases f with
+    | false =>
+      have hs : s = d.flip := hf0 rfl
+      subst hs
+      simp only [Bool.false_eq_true, if_false] at hterm
+      have hk : extend (termKmer g.K nv.seq d.flip) (recip t d false) d.flip = t := by rw [hterm, Compress.extend_back _ b d hne]
+      exact ⟨d, false, by rw [hk, ← ht]; exact lookup_direct g hg u nu hu d, Or.inl rfl⟩
+    | true =>
+      obtain ⟨hs, hst⟩ := hf1 rfl
+      subst hs
+      simp only [if_true] at hterm
+      have hk : extend (termKmer g.K nv.seq s) (recip t s true) s = rc t := by rw [hterm, Compress.extend_back_flip _ b s hne]
+      rcases lookup_flipped g hg hst u nu hu s with h1 | ⟨hlen, hrcu, h1⟩
+      · exact ⟨s, true, by rw [hk, ← ht]; exact h1, Or.inl rfl⟩
+      · exact ⟨s.flip, false, by rw [hk, ← ht]; exact h1, Or.inr ⟨hst, hlen, hrcu⟩⟩
+  · intro hpal
+    obtain ⟨nv', hv', hst, hvl, hvp⟩ := hpal
+    rw [hv] at hv'; cases hv'
+    have hx : ∀ side, termKmer g.K nv.seq side = nv.seq := by
+      intro side
+      cases side with
+      | L => show nv.seq.take g.K = nv.seq; rw [← hvl, List.take_length]
+      | R => show nv.seq.drop (nv.seq.length - g.K) = nv.seq; rw [hvl, Nat.sub_self, List.drop_zero]
+    rw [hx] at hterm
+    have hkm : extend t b d = nv.seq ∧ rc (extend t b d) = nv.seq := by
+      cases f with
+      | false => simp only [Bool.false_eq_true, if_false] at hterm; exact ⟨hterm.symm, by rw [← hterm]; exact hvp⟩
+      | true =>
+        simp only [if_true] at hterm
+        have : extend t b d = rc nv.seq := by rw [hterm, Compress.rc_rc]
+        exact ⟨by rw [this, hvp], hterm.symm⟩
+    cases f with
+    | false =>
+      have hs : s = d.flip := hf0 rfl
+      subst hs
+      have hk : extend (termKmer g.K nv.seq d.flip.flip) (Compress.comp (recip t d false)) d.flip.flip = rc t := by
+        rw [hx, Dir.flip_flip, ← hkm.2]
+        exact Compress.extend_back_flip t b d hne
+      rcases lookup_flipped g hg hst u nu hu d with h1 | ⟨_, _, h1⟩
+      · exact ⟨d, true, by rw [hk, Dir.flip_flip, ← ht]; exact h1⟩
+      · exact ⟨d.flip, false, by rw [hk, Dir.flip_flip, ← ht]; exact h1⟩
+    | true =>
+      obtain ⟨hs, _⟩ := hf1 rfl
+      subst hs
+      have hcc : Compress.comp (recip t s true) = recip t s false := by
+        unfold recip; simp only [if_true, Bool.false_eq_true, if_false]
+        exact Filter.comp_comp _
+      have hk : extend (termKmer g.K nv.seq s.flip) (Compress.comp (recip t s true)) s.flip = t := by
+        rw [hx, hcc, ← hkm.1]
+        exact Compress.extend_back t b s hne
+      exact ⟨s, false, by rw [hk, ← ht]; exact lookup_direct g hg u nu hu s⟩
 
 end Graph
